@@ -34,12 +34,15 @@ type Case struct {
 	// Via "api": the case only fails through apifu.API (ServeGraphQL / graphql-ws), i.e. in the
 	// plumbing of the request's feature set, not in graphql.Execute.
 	Via string `json:"via,omitempty"`
+	// WS, for Via "api": the socket variant on which the case fails (nil: HTTP, or try the default).
+	WS *WSVariant `json:"ws,omitempty"`
 }
 
 type harness struct {
 	run      *hx.Run
 	model    *hx.Model
 	perClass map[string]int
+	wsCount  int
 }
 
 const obPrevalidated = "oracle: a document validated with all features and executed under F (Request.Document) never reaches a gated resolver"
@@ -950,16 +953,23 @@ func (h *harness) replayAPI(c *Case, verbose bool) string {
 	if what != "" {
 		return "API/HTTP: " + what
 	}
-	wsA, err := dialWS(full, c.F)
+	v := WSVariant{Proto: "graphql-ws", Upgrade: c.F}
+	if c.WS != nil {
+		v = *c.WS
+	}
+	wsA, err := dialWS(full, v)
 	if err != nil {
 		return ""
 	}
 	defer wsA.close()
-	wsB, err := dialWS(erased, all)
+	wsB, err := dialWS(erased, WSVariant{Proto: v.Proto})
 	if err != nil {
 		return ""
 	}
 	defer wsB.close()
+	if verbose {
+		fmt.Printf("socket: %s\n", v)
+	}
 	a = wsA.run(fw, &q)
 	b = wsB.run(ew, &q)
 	if verbose {
